@@ -46,6 +46,28 @@ pub fn run(seed: u64, thorough: bool) -> Vec<Value> {
         let (o, v) = match r { Ok(Ok(v)) => ("ok".to_string(), v), Ok(Err(_)) => ("AmountTooLarge".into(), 0), Err(e) => (format!("panic:{}", panic_message(e)), 0) };
         out.push(json!({"ev": "payctor", "which": "customer", "u": limbs(u as u128), "out": o, "a": amt(v)}));
     }
+    // balances read from the wire: the decoder is a constructor too and must agree with try_new; a decoded balance
+    // is then used in try_add like any other
+    for &u in &us {
+        for who in ["customer", "merchant"] {
+            let r = catch_unwind(|| {
+                if who == "customer" { bincode::deserialize::<CustomerBalance>(&u.to_le_bytes()).map(|b| b.into_inner()) }
+                else { bincode::deserialize::<MerchantBalance>(&u.to_le_bytes()).map(|b| b.into_inner()) }
+            });
+            let (o, v) = match r { Ok(Ok(v)) => ("ok".to_string(), v), Ok(Err(_)) => ("AmountTooLarge".into(), 0), Err(e) => (format!("panic:{}", panic_message(e)), 0) };
+            out.push(json!({"ev": "baldecode", "who": who, "u": limbs(u as u128), "out": o, "v": limbs(v as u128)}));
+        }
+        if let Ok(mb) = bincode::deserialize::<MerchantBalance>(&u.to_le_bytes()) {
+            for c in [0u64, 1, i64::MAX as u64] {
+                let (o, v) = res_u(catch_unwind(AssertUnwindSafe(|| CustomerBalance::try_new(c).and_then(|cb| mb.try_add(cb)).map(|b| b.into_inner()))));
+                if u <= i64::MAX as u64 {
+                    out.push(json!({"ev": "tryadd", "m": limbs(u as u128), "c": limbs(c as u128), "out": o, "v": limbs(v as u128), "decoded": true}));
+                } else {
+                    out.push(json!({"ev": "tryadd_out_of_range_operand", "m": limbs(u as u128), "c": limbs(c as u128), "out": o}));
+                }
+            }
+        }
+    }
     // try_add over all pairs of representable balances of the lattice (and pairs summing to exactly 2^63-1 / 2^63)
     let bal: Vec<u64> = us.iter().cloned().filter(|&u| u <= i64::MAX as u64).collect();
     let mut pairs: Vec<(u64, u64)> = vec![];
